@@ -435,6 +435,21 @@ impl<'a> Model<'a> {
                 self.bad("C16", "C16/poll-failed-with-local-resource-error", format!("op {op} ({kind:?}) returned {res:?}"));
             }
         }
+        // poll() gives up with "packet too large" although everything it owes fits the broker's
+        // Maximum Packet Size: a PUBREL (5 bytes) under a limit of 5 or more
+        if matches!(kind, OpKind::Poll | OpKind::Recv | OpKind::Drive) && res == OpRes::Err(ErrKind::PacketTooLarge) && !self.trs[tr].hostile {
+            if let Some(m) = self.trs[tr].max_packet {
+                let replays_fit = self
+                    .unresolved()
+                    .filter(|(_, f)| f.phase == Phase::AwaitAck && f.tx_here == 0)
+                    .all(|(_, f)| f.first_tx.as_ref().is_some_and(|b| b.len() as u32 <= m));
+                let rel = self.unresolved().find(|(_, f)| matches!(f.phase, Phase::Released { .. }) && f.rel_here == 0).map(|(_, f)| f.pid);
+                if let (true, true, Some(pid), true) = (m >= 5, replays_fit, rel, self.owed.is_empty()) {
+                    self.bad("C03", "C03/pubrel-refused-as-too-large", format!("op {op} ({kind:?}) returned PacketTooLarge with Maximum Packet Size {m} while the 5-byte PUBREL for id {pid} is owed and nothing else that is owed exceeds the limit"));
+                    self.bad("C14", "C14/fitting-packet-refused/PUBREL", format!("op {op} ({kind:?}) returned PacketTooLarge with Maximum Packet Size {m} while only a PUBREL (5 bytes) for id {pid} is owed"));
+                }
+            }
+        }
         // refused requests must leave no trace on the wire
         if let Some(r) = rec.request {
             if self.req_matched[r] {
